@@ -137,6 +137,7 @@ PROPS = {
             'LiveEvents::next / peek: a stored reader error is reported as Error::IOError before any event (not even a buffered look-ahead) is handed out',
             'LiveEvents::finish: a stored reader error is reported at the end; otherwise a delayed budget breach is surfaced',
             'io_error: Ok exactly when the shared cell is empty',
+            'the feature-gated copies (extracted with the cfg on): the document iterators of read_with_options_valid (garde) and read_with_options_validate (validator) carry the same obligations as ReadIter::next, the leftover checks of from_str_with_options_and_path_recorder / from_reader_with_options_valid / from_reader_with_options_validate the same as the two plain ones, the batch loops of from_multiple_with_options_valid / _validate the same as from_multiple_with_options (validation call and validation-error construction opaque: they do not touch the event source)',
             'the single-document entry points (leftover-check fragments of from_str_with_options_impl and from_reader_with_options): a value is returned only after finish() found no stored reader error (after a successful finish the cell is empty)',
             'RingReader::read / read_ahead_at_most / get_recent (the wrapper between the user\'s reader and the decoder): they fail exactly when the source failed (ghost count of errors the source returned), never swallowing one and never inventing one',
             'ReadIter::next (document iterator of read / read_with_options): no result of the event source that carries the deferred reader error is ever discarded before the iterator ends quietly or delivers a document (ghost-tracked); a finished iterator stays finished; it ends only by marking itself finished',
@@ -144,7 +145,7 @@ PROPS = {
             'ChunkedChars::next: it signals end of input only when nothing is left, or after storing an error in the shared cell (reader error of ANY kind, EOF inside a code point, invalid lead byte / sequence, byte cap exceeded); total_bytes never exceeds the cap; at most 4 bytes are requested per character',
             'writer side (to_io_writer_with_options): the fmt::Write adapter over io::Write remembers a failed write_all, appends exactly the text on success and leaves a prefix of it on failure; the result selection returns the remembered I/O error whenever the serializer failed after a write failure',
         ],
-        not_covered=['BufReader / decoder read-ahead; the feature-gated copies of the iterator (read_*_valid / read_*_validate; same text, repaired alike, not extracted); termination of ReadIter::next; writer side: that the serializer stops at the first failed write (every write in src/ser.rs is followed by `?`; checked by grep, not by a contract) and Adapter::write_char'],
+        not_covered=['BufReader / decoder read-ahead; termination of ReadIter::next; writer side: that the serializer stops at the first failed write (every write in src/ser.rs is followed by `?`; checked by grep, not by a contract) and Adapter::write_char'],
         assumptions=['interior mutability of the shared error cell is made explicit (rule R28: io_error takes &mut self and consumes the cell); the reader may fill the cell during any pump step',
                      'io::Write::write_all (assumed, std documentation): Ok means all bytes were written, Err leaves an unspecified prefix written'],
     ),
@@ -192,7 +193,7 @@ PROPS = {
             'MA::next_value_seed (map access): a value is handed out only after its key (else ValueRequestedBeforeKey with nothing consumed); each key is paired with exactly one value; a buffered value (merge / reordered entry) is read from exactly its recorded events while the live cursor stays put; a live value is read at the untouched cursor with the next node as definition site',
             'SA::next_element_seed (sequence access): None exactly at the SeqEnd, which is left for the caller; otherwise the element seed runs at the untouched cursor with the element\'s own location; end of input inside a sequence is an error',
         ],
-        not_covered=['arity / field-name checks of serde-generated visitors; EA::variant_seed and the TaggedEA / TaggedVA accesses (one-line delegations to serde), simple_tagged_enum_name (string surgery, uninterpreted), newtype / anchor wrappers (generic over Visitor, thread-local anchor context); the leftover checks of the feature-gated *_valid / *_validate entry points; the reference interpreter comparison'],
+        not_covered=['arity / field-name checks of serde-generated visitors; EA::variant_seed and the TaggedEA / TaggedVA accesses (one-line delegations to serde), simple_tagged_enum_name (string surgery, uninterpreted), newtype / anchor wrappers (generic over Visitor, thread-local anchor context); the reference interpreter comparison'],
         assumptions=['scalar_is_nullish is used as an uninterpreted function of text and style'],
     ),
     'C12': dict(
